@@ -195,7 +195,12 @@ void pool_body(const PCfg& c) {
 int main(int argc, char** argv) {
     vsched::Main m(argc, argv);
     const bool T = m.thorough();
-    std::string part = m.rest().size() >= 2 && m.rest()[0] == "--part" ? m.rest()[1] : "all";
+    std::string part = "all";
+    int cap_bound = 99;
+    for (size_t i = 0; i + 1 < m.rest().size(); ++i) {
+        if (m.rest()[i] == "--part") part = m.rest()[i + 1];
+        if (m.rest()[i] == "--max-bound") cap_bound = atoi(m.rest()[i + 1].c_str());     // used when traces are dumped for the Promela layer
+    }
     vsched::Options o;
     // ---- queue harness families
     std::vector<QCfg> qs = {
@@ -208,6 +213,11 @@ int main(int argc, char** argv) {
         {"Q4:prod x3,try_pop x3,max=3", 1, 3, 3, {}, false, 3},
         {"Q4:prod x2,try_pop x2 + cons x1,max=1", 1, 2, 1, {1}, false, 1},
         {"Q5:2 cons blocked,shutdown", 0, 0, 0, {1, 1}, true, 0},
+        // small configurations mirrored by the Promela model (engine/spin/queue.pml, checks/C19/spin.py): all their model paths are replayed here
+        {"M1:1 cons blocked,shutdown", 0, 0, 0, {1}, true, 0},
+        {"M2:prod x1,cons x1,unbounded", 1, 1, 0, {1}, false, 0},
+        {"M3:prod x2,cons x2,max=1", 1, 2, 1, {2}, false, 0},
+        {"M4:prod x1,cons x1,shutdown,unbounded", 1, 1, 0, {1}, true, 0},
     };
     std::vector<PCfg> ps = {
         {"P1:1 worker,3 tasks,get in order", 1, 3, 2, 1, false, false},
@@ -245,7 +255,7 @@ int main(int argc, char** argv) {
         for (auto& c : sq) add(c.name, [&c] { queue_body(c); }, true, c.producers <= 2 ? (T ? 2 : 1) : (T && c.max_size != 1 ? 1 : 0), 8);
     }
     for (int b = 0; b <= 5; ++b) for (auto& j : jobs) {
-        if (b > j.o.max_bound) continue;
+        if (b > j.o.max_bound || b > cap_bound) continue;
         vsched::Options o = j.o; o.min_bound = b; o.max_bound = b;
         if (m.replay_mode()) { if (b == 0) m.run(j.name, j.body, j.o); continue; }
         m.run(j.name, j.body, o);
